@@ -6,8 +6,9 @@ Spec:  spec/Outcome.tla — Live, Blocked, Remains, ExitLint, ExitFix exactly as
        the increment in discard_fixes_for_lint_errors_in_files_with_tmp_or_prs_errors, _handle_unparsable,
        _paths_fix, _stdin_fix (flags sampled before the discard), lint's stats()["exit code"].
        TLC enumerates the scenario space, evaluates both layers and emits where the counters differ from the
-       contract (evidence: model_deviations); AlgoRefinesContract is additionally run as an INVARIANT and its
-       counterexample recorded (expected while F10 / F23 are open).
+       contract (evidence: model_deviations); PathCountersRefineExit and StdinFlagsRefineExit are additionally run
+       as INVARIANTs and their counterexamples recorded (F23 and the config-file dialect error are open; F10 was
+       repaired in 9356db3 and the transcription updated).
 S->C:  each scenario through `sqlfluff lint|fix|format` on paths and on stdin (CliRunner + subprocess sample);
        exit status must be in the set TLC computed, files in `must` must have been rewritten.
 C->S:  OutcomeTrace with Prop = "C22" on the facts the code established.  Runs with an oversized file are
@@ -28,7 +29,7 @@ def nontrivial(rec: dict, run: dict) -> bool:
 
 
 def run(tier: str, seed: int) -> int:
-    return S.check(PROP, tier, seed, nontrivial, RULE, refinement=[("PathCountersRefineExit", ("single",), "F10"), ("StdinFlagsRefineExit", ("single",), "F23")])
+    return S.check(PROP, tier, seed, nontrivial, RULE, refinement=[("PathCountersRefineExit", ("single", "usage"), "unknown dialect in a config file (F10 repaired in 9356db3)"), ("StdinFlagsRefineExit", ("single",), "F23")])
 
 
 def replay(path: str, tier: str, seed: int) -> int:
